@@ -12,7 +12,15 @@ def dims_grid(L):
     return sorted(s)
 
 
+RUST_OF = {"KDot": "generic_dot_product", "KCosine": "generic_cosine", "KEuclid": "generic_euclidean", "KNorm": "generic_squared_norm",
+           "KSum": "generic_sum", "KMaxH": "generic_max_horizontal", "KMinH": "generic_min_horizontal", "KMaxV": "generic_max_vertical",
+           "KMinV": "generic_min_vertical", "KMaxVal": "generic_max_value", "KMinVal": "generic_min_value", "KAddVal": "generic_add_value",
+           "KSubVal": "generic_sub_value", "KMulVal": "generic_mul_value", "KDivVal": "generic_div_value", "KAddVec": "generic_add_vector",
+           "KSubVec": "generic_sub_vector", "KMulVec": "generic_mul_vector", "KDivVec": "generic_div_vector"}
+
+
 def cases_for(kernels, Ls):
+    from checks import exprun
     out = []
     for L in Ls:
         for d in dims_grid(L):
@@ -23,6 +31,12 @@ def cases_for(kernels, Ls):
                     scripts = [(0, 0, 0)]
                 for zx, zy, z0 in scripts:
                     out.append("%s %d %d %d %d %d" % (k, L, d, zx, zy, z0))
+    # literal-guided lengths (thresholds written in the kernel's own source; none on the unchanged tree), two lane counts
+    for L in [x for x in Ls if x in (1, 4)]:
+        for k in kernels:
+            for d in exprun.literal_lens(RUST_OF[k], L):
+                if d not in dims_grid(L):
+                    out.append("%s %d %d %d %d %d" % (k, L, d, 0, 0, 0))
     return out
 
 
